@@ -18,7 +18,7 @@ RULE = (
   "(Newton 2e-2; worlds without rows 1e-3 for either solver); evaluation = one world (and step); non-trivial = >=1 active inequality row (contact/limit/friction) in the solution, or a re-solved world"
 )
 ASSUMPTIONS = ["rows must match MuJoCo's (C05) for the certificate to be evaluated; other worlds are counted as skipped", "MuJoCo Newton with tolerance 1e-10 is the reference optimum"]
-BUDGET = {"quick": dict(examples=400, seconds=150, workers=16), "thorough": dict(examples=10000, seconds=1500, workers=16)}
+BUDGET = {"quick": dict(examples=400, seconds=420, workers=16), "thorough": dict(examples=10000, seconds=1500, workers=16)}
 
 
 def strategy(tier):
